@@ -201,6 +201,19 @@ def run(plan: dict[str, Any]) -> dict[str, Any]:
                         R.violate("C16.tamper-rejected", f"delivered-after-an-accepted-frame:flip-in:{fld}",
                                   f"after the genuine frame {good.hex()} was accepted, its successor with octet {off} bit {bit} "
                                   f"({fld}) flipped delivered {[o.hex() for o in out]}")
+                    # the same tampered frame once more right away (a link-layer repetition - its repeat flag may differ): a
+                    # rejection leaves nothing behind that vouches for the next arrival
+                    b2 = bytearray(b)
+                    if rng.random() < 0.5:
+                        b2[2] ^= 0x20
+                    out, esc = deliver(bytes(b2), fresh=False)
+                    R.extra_faults["tampered_frame_repeated"] += 1
+                    if esc is not None:
+                        R.violate("C16.no-raise", f"{type(esc).__name__}:{fld}", f"pass C repeated flip octet {off} bit {bit}: {esc!r}")
+                    elif out:
+                        R.violate("C16.tamper-rejected", f"delivered-on-second-arrival:flip-in:{fld}",
+                                  f"the successor of an accepted frame with octet {off} bit {bit} ({fld}) flipped was rejected, "
+                                  f"the same frame arriving again delivered {[o.hex() for o in out]}")
         out, esc = deliver(good2, fresh=False)
         if out != [apdu] or esc is not None:
             R.violate("C16.rejected-do-not-advance", "successor-rejected-after-tampered-variants",
